@@ -123,6 +123,15 @@ class ZSeq(SymVal):
         return ZSeq(hash_fn(alg)(self.t), "bytes")
 
     def sym_getattr(self, ctx, name):
+        if name in ("startswith", "endswith"):
+            def f(other, *rest):
+                if rest:
+                    raise Undecided(name + " with start/end")
+                o = coerce(other, self.kind)
+                if o is None:
+                    raise PyRaise(TypeError, name)
+                return z3.PrefixOf(o.t, self.t) if name == "startswith" else z3.SuffixOf(o.t, self.t)
+            return f
         h = ctx.opts.get("zseq_attr")
         if h is not None:
             r = h(ctx, self, name)
